@@ -29,6 +29,27 @@ Import ListNotations.
 From Mds Require Import Gen.CacheIdx Gen.CacheLru Heapq.HeapqModel Cache.CacheSpec.
 Local Open Scope Z_scope.
 
+(* The calls each method makes, as the control skeleton below assumes them — the number of call
+   sites of every store/heap method per Go function, regenerated from the source on every run.
+   [store_shape] is true exactly when the source still has this shape (CacheTheoremsS2.store_shape_ok,
+   C08_store_shape: the obligation that breaks when a call is added, dropped or redirected). *)
+Definition store_shape : bool :=
+  (* cache.go *)
+  (CacheIdx.put_ncalls_Check =? 1) && (CacheIdx.put_ncalls_Remove =? 1) && (CacheIdx.put_ncalls_Evict =? 1) &&
+  (CacheIdx.put_ncalls_Store =? 1) && (CacheIdx.put_ncalls_Access =? 0) && (CacheIdx.put_ncalls_sizeOf =? 3) &&
+  (CacheIdx.put_ncalls_onEvict =? 2) &&
+  (CacheIdx.get_ncalls_Access =? 1) && (CacheIdx.get_ncalls_Check =? 0) &&
+  (CacheIdx.has_ncalls_Check =? 1) && (CacheIdx.has_ncalls_Access =? 0) &&
+  (CacheIdx.remove_ncalls_Check =? 1) && (CacheIdx.remove_ncalls_Remove =? 1) && (CacheIdx.remove_ncalls_onEvict =? 1) &&
+  (CacheIdx.clear_ncalls_Evict =? 1) && (CacheIdx.clear_ncalls_onEvict =? 1) &&
+  (* lru.go *)
+  (CacheLru.check_ncalls_Peek =? 1) &&
+  (CacheLru.access_ncalls_Remove =? 1) && (CacheLru.access_ncalls_Add =? 1) && (CacheLru.access_ncalls_Peek =? 0) &&
+  (CacheLru.access_ncalls_Len =? 0) && (CacheLru.access_ncalls_Pop =? 0) &&
+  (CacheLru.store_ncalls_Add =? 1) &&
+  (CacheLru.lremove_ncalls_Remove =? 1) && (CacheLru.lremove_ncalls_delete =? 1) &&
+  (CacheLru.evict_ncalls_Pop =? 1) && (CacheLru.evict_ncalls_Remove =? 0) && (CacheLru.evict_ncalls_delete =? 1).
+
 Inductive panic_kind := PIndex | PEvictEmpty | PStorePresent | PClearCheck | PBadLimit.
 
 Inductive cres (A : Type) : Type :=
@@ -100,7 +121,7 @@ Definition lru_check (s : lru) (k : K) : cres (V * bool) :=
   match map_get (present s) k with
   | None => COk (vzero, false)
   | Some pos =>
-    cdo r <- lift (Peek prio (access s) pos);
+    cdo r <- lift (Peek prio (access s) (CacheLru.check_at pos));
     match r with
     | PeekPanic => CPanic PIndex
     | PeekNone => COk (vzero, false)
@@ -114,7 +135,7 @@ Definition lru_access (s : lru) (k : K) : cres (lru * (V * bool)) :=
   | None => COk (s, (vzero, false))
   | Some pos =>
     let clk := CacheLru.access_clock (clock s) in
-    cdo (q1, m1, r) <- lift (Remove prio hv (access s) pos);
+    cdo (q1, m1, r) <- lift (Remove prio hv (access s) (CacheLru.access_remove_at pos));
     match r with
     | RemPanic => CPanic PIndex
     | _ =>
@@ -133,7 +154,7 @@ Definition lru_store (s : lru) (k : K) (val : V) : cres lru :=
   | Some _ => CPanic PStorePresent
   | None =>
     let clk := CacheLru.store_clock (clock s) in
-    cdo (q, m, pos) <- lift (Add prio hv (access s) {| lastAccess := clk; key := k; value := val |});
+    cdo (q, m, pos) <- lift (Add prio hv (access s) {| lastAccess := CacheLru.store_stamp clk; key := k; value := val |});
     (* the callback has run inside Add; then c.present[key] = pos *)
     COk {| present := map_set (apply_moves m (present s)) k pos; access := q; clock := clk |}
   end.
@@ -143,7 +164,7 @@ Definition lru_remove (s : lru) (k : K) : cres lru :=
   match map_get (present s) k with
   | None => COk s
   | Some pos =>
-    cdo (q, m, r) <- lift (Remove prio hv (access s) pos);
+    cdo (q, m, r) <- lift (Remove prio hv (access s) (CacheLru.lremove_at pos));
     match r with
     | RemPanic => CPanic PIndex
     | _ => COk {| present := map_del (apply_moves m (present s)) k; access := q; clock := clock s |}
@@ -187,7 +208,7 @@ Fixpoint put_evict_loop (fuel : nat) (s : lru) (cnt newSize lim : Z) (log : evlo
 
 Definition cache_put (c : cache) (k : K) (val : V) : cres (cache * bool * evlog K V) :=
   let valSize := sizeOf val in
-  if CacheIdx.put_refuse valSize (limit c) then COk (c, false, [])
+  if CacheIdx.put_refuse valSize (limit c) then COk (c, CacheIdx.put_refused_result, [])
   else
     cdo (old, ok) <- lru_check (store c) k;
     cdo (s1, size1, cnt1, log1) <-
@@ -201,7 +222,7 @@ Definition cache_put (c : cache) (k : K) (val : V) : cres (cache * bool * evlog 
       put_evict_loop (S (length (data (access s1)))) s1 cnt1 newSize (limit c) log1;
     cdo s3 <- lru_store s2 k val;
     COk ({| store := s3; csize := CacheIdx.put_final_size newSize2; count := CacheIdx.put_final_count cnt2; limit := limit c |},
-         true, log2).
+         CacheIdx.put_stored_result, log2).
 
 Definition cache_get (c : cache) (k : K) : cres (cache * (V * bool)) :=
   cdo (s, r) <- lru_access (store c) k;
@@ -215,8 +236,8 @@ Definition cache_remove (c : cache) (k : K) : cres (cache * bool * evlog K V) :=
   if ok : bool then
     cdo s' <- lru_remove (store c) k;
     COk ({| store := s'; csize := CacheIdx.remove_size (csize c) (sizeOf old); count := CacheIdx.remove_count (count c); limit := limit c |},
-         true, fires CacheIdx.remove_ncalls_onEvict 1 (k, old))
-  else COk (c, false, []).
+         CacheIdx.remove_found_result, fires CacheIdx.remove_ncalls_onEvict 1 (k, old))
+  else COk (c, CacheIdx.remove_absent_result, []).
 
 (* for c.count > 0 { ek, ev := c.store.Evict(); c.onEvict(ek, ev); c.size -= c.sizeOf(ev); c.count-- } *)
 Fixpoint clear_loop (fuel : nat) (s : lru) (size cnt : Z) (log : evlog K V) : cres (lru * Z * Z * evlog K V) :=
@@ -358,10 +379,13 @@ Arguments EFuel {K V}.
 Definition ok_event {K V} (rl : out V * evlog K V) : event K V := EOk (fst rl) (snd rl).
 
 (* ---- the instance replayed against the implementation: int keys and values ---- *)
-(* size functions of the harness: mode 0 = default (1), k > 0: v mod k, k < 0: v mod (-k) - 1
-   (Go's % on the non-negative values the harness uses) *)
+(* size functions of the harness: mode 0 = default (1), 0 < k < 1000: v mod k, k < 0: v mod (-k) - 1
+   (Go's % on the non-negative values the harness uses), 1000 + k: v << k (big sizes; the harness
+   keeps v << k below 2^62) *)
 Definition size_mode (mode : Z) (v : Z) : Z :=
-  if mode =? 0 then 1 else if 0 <? mode then Z.rem v mode else Z.rem v (- mode) - 1.
+  if mode =? 0 then 1
+  else if 1000 <=? mode then v * 2 ^ (mode - 1000)
+  else if 0 <? mode then Z.rem v mode else Z.rem v (- mode) - 1.
 
 Definition run_Z (hv : variant) (mode lim : Z) (ops : list (op Z Z)) : list (event Z Z * option (cache Z Z)) :=
   run_new_states Z Z Z.eqb 0 0 (size_mode mode) hv lim ops.
